@@ -1,5 +1,5 @@
 """C16, C17: pagination links (spec/Pager.tla, spec/trace/PagerTrace.tla, harness/fam_pager.go)."""
-from propdefs import bfs
+from propdefs import bfs, sim
 
 TRACE = dict(module="PagerTrace", cfg="PagerTrace")
 ASSUME = [
@@ -16,7 +16,7 @@ PROPS = {
              "and x Next/Prev label sets (PrevNext), from spec/Pager.tla; non-trivial = runs that returned a next link",
         nontrivial_key="next_found", assumptions=ASSUME, exhaustive_tiers=("thorough",)),
     "C16": dict(
-        stages=[dict(name="main", gen=dict(runs=dict(quick=[bfs("MC_Pager", "C16_quick"), bfs("MC_Pager", "C17_conv")],
+        stages=[dict(name="main", gen=dict(runs=dict(quick=[bfs("MC_Pager", "C16_quick"), sim("MC_Pager", "C16_thorough", 6000, 5), bfs("MC_Pager", "C17_conv")],
                                                      thorough=[bfs("MC_Pager", "C16_thorough", heap="12g"), bfs("MC_Pager", "C17_conv")])),
                      sample=dict(quick=16000, thorough=500000), trace=TRACE)],
         rule="cases = every sequence of up to 2 (quick) / 3 (thorough) anchors over 14 href kinds x 3 label kinds x position of the plain "
